@@ -88,7 +88,7 @@ MODEL_NOTES = {
     "C12": "In addition TLC enumerates all 196 ordered dtype pairs (MC_DType), checks commutativity / idempotence / absorption of the promotion rules and idempotence of casts (it refuted associativity, which numpy's own table does not have either), and every pair is replayed: model-vs-numpy binding events, dtype= construction, astype, +, -, *, and x - x.",
     "C16": "In addition TLC enumerates all ordered pairs of a universe of small polynomials printed as a two-element array under every display order and both retain_names settings (MC_Text), checks that the display order totally orders each element's monomials, and every pair is replayed on str/repr.",
     "C18": "In addition TLC enumerates every key matrix of a small universe and every (start, stop, norm, flags) vector (MC_Sort), checks that the order is a strict total order and basic laws of the index sets, and every vector is replayed on glexsort / glexindex / bindex / monomial.",
-    "C20": "In addition TLC enumerates single exponents across the range (MC_Keys; thorough: every exponent 0..57500), checks that the key codec is a bijection and that the guaranteed range avoids unstorable code points, and every exponent (the Unicode white-space code points and UTF-8 length boundaries are part of the quick range) is replayed through construction, the raw view, pickling, a multiplication and text files written by both writers, as the only key and as the last of two keys in two indeterminates.",
+    "C20": "In addition TLC enumerates single exponents across the range (MC_Keys; thorough: every exponent 0..57500), checks that the key codec is a bijection and that the guaranteed range avoids unstorable code points, and every exponent (the Unicode white-space code points and UTF-8 length boundaries are part of the quick range) is replayed through construction, the raw view, pickling, a multiplication and text files written by both writers, as the only key and as the last of two keys in two indeterminates; and every product q0**a * q0**b with a + b <= 600 (quick: the sums around the byte-length boundaries of the key code point, thinned) is replayed in both orders, one and two indeterminates, int and float coefficients and the three spellings.",
 }
 NOT_YET = "check under construction in this session: the TLA+ action exists in the design (DESIGN.md section 6) but is not yet bound to the implementation by a registered check"
 
